@@ -14,6 +14,12 @@ N == Len(Trace)
 VARIABLE c
 TraceInit == c = 1 /\ TLCSet(1, <<>>) /\ TLCSet(2, 0) /\ TLCSet(3, 0) /\ TLCSet(4, {})
 
+\* ALLOW: a descent that comes after a multi-valued fragment (wildcard, descent, union, slice, filter): Expr.Get returns
+\* bags that depend on map iteration order there (measured: $.*..[1:3] gives two different bags on one document), with
+\* one outcome often dominant, so sampling alone does not show it. Printing and parsing of these shapes are still judged.
+OrderDependent(ev) == /\ ev.k = "path"
+                      /\ LET fr == ev.case.fr IN
+                         \E i, j \in 1..Len(fr) : i < j /\ fr[j].f = "desc" /\ fr[i].f \in {"wild", "desc", "union", "slice", "filter"}
 ModelSays(ev) == IF ev.k = "eq" THEN Expect(ev.ast, ev.elem, ev.elem) ELSE "ANY"
 Verdict14(ev) ==
     IF ev.perr = 2 THEN "printer-panics"
@@ -21,8 +27,9 @@ Verdict14(ev) ==
     ELSE IF ev.s2 # ev.s1 THEN "prints-differently"
     \* ALLOW: when the re-parsed expression is structurally identical to the original (a Go fact: reflect.DeepEqual),
     \* a different result is not caused by the text form (Expr.Get on several descents depends on map order: C05)
-    \* and where repeated evaluation of one expression gives several results, one common result is enough
-    ELSE IF ~ev.same /\ ~(\E i \in 1..Len(ev.eos), j \in 1..Len(ev.ers) : ev.eos[i] = ev.ers[j]) THEN "evaluates-differently"
+    \* ALLOW: an original whose repeated evaluation on the same data gives several results (Expr.Get through a wildcard
+    \* or descent over maps followed by a descent depends on map order: a C05 matter) has no value to preserve
+    ELSE IF ~ev.same /\ Len(ev.eos) = 1 /\ ev.ers # ev.eos /\ ~OrderDependent(ev) THEN "evaluates-differently"
     ELSE IF ev.k = "eq" /\ ev.mo = 2 THEN "panic"
     ELSE IF ev.k = "eq" /\ ((ModelSays(ev) = "T" /\ ev.mo = 0) \/ (ModelSays(ev) = "F" /\ ev.mo = 1)) THEN "model-differs"
     ELSE "ok"
